@@ -7,83 +7,91 @@
 (* ones the model hands over.  Hand-over of records to the queue and the   *)
 (* dropping of stale queued messages are not logged: they are silent steps *)
 (* of the model, bounded by the records of the current response.           *)
+(* A (re)connection is positioned by the model's action Positioned at the  *)
+(* event of the leader's first answer about the end of the log on that     *)
+(* connection ("listoffsets", k = 1), with the first / last offsets the    *)
+(* leader reported there: a symbolic position is resolved at that moment,  *)
+(* once, whatever is appended later.  An attempt that does not get as far  *)
+(* as fetching positions nothing: both continuations are explored.         *)
 (***************************************************************************)
 EXTENDS FetchLog, Json, IOUtils
 
 Trace == ndJsonDeserialize(IOEnv.TRACE)
 
-VARIABLES l, conns, stale, appOff
-tvars == <<vars, l, conns, stale, appOff>>
+VARIABLES l, conns, stale, appOff, cur
+tvars == <<vars, l, conns, stale, appOff, cur>>
 
 B(e) == [base |-> e.base, last |-> e.last, present |-> Range(e.present), fmt |-> e.fmt, comp |-> (e.codec # 0)]
 CfgOf(e) == [log |-> [i \in DOMAIN e.log |-> B(e.log[i])], logStart |-> e.logStart, hw |-> e.hw, start |-> -2,
-             qcap |-> 100000, maxFaults |-> 100000, setOffsets |-> 100000, setTargets |-> {}, bug |-> "none"]
+             qcap |-> 100000, maxFaults |-> 100000, setOffsets |-> 100000, setTargets |-> {}, grow |-> <<>>, bug |-> "none"]
 NoCfg == [log |-> <<>>, logStart |-> 0, hw |-> 0, start |-> -2, qcap |-> 100000, maxFaults |-> 100000,
-          setOffsets |-> 100000, setTargets |-> {}, bug |-> "none"]
+          setOffsets |-> 100000, setTargets |-> {}, grow |-> <<>>, bug |-> "none"]
 
-TInit == cfg = NoCfg /\ Init /\ l = 1 /\ conns = {} /\ stale = {} /\ appOff = -2
+TInit == cfg = NoCfg /\ Init /\ l = 1 /\ conns = {} /\ stale = {} /\ appOff = -2 /\ cur = 0
 
 Reset(e) ==
   /\ cfg' = CfgOf(e)
   /\ pos' = 0 /\ rpos' = -2 /\ phase' = "init"
   /\ pending' = <<>> /\ truncFrom' = 0 /\ endPos' = 0 /\ respKind' = "data"
   /\ version' = 1 /\ queue' = <<>> /\ app' = [pc |-> "idle", ver |-> 0]
-  /\ got' = <<>> /\ starts' = <<-2>> /\ faults' = 0
-  /\ conns' = {} /\ stale' = {} /\ appOff' = -2
+  /\ got' = <<>> /\ starts' = << [sym |-> -2, abs |-> Unres] >> /\ faults' = 0
+  /\ conns' = {} /\ stale' = {} /\ appOff' = -2 /\ cur' = 0
 
-Skip == UNCHANGED vars /\ UNCHANGED <<conns, stale, appOff>>
-Keep == UNCHANGED <<conns, stale, appOff>>
+Skip == UNCHANGED vars /\ UNCHANGED <<conns, stale, appOff, cur>>
+Keep == UNCHANGED <<conns, stale, appOff, cur>>
 
-CodeName(c) == CASE c = 6 -> "NotLeader" [] c = 7 -> "TimedOut" [] c = 1 -> "OutOfRange" [] OTHER -> "Other"
+CodeName(c) == CASE c = 6 -> "NotLeader" [] c = 3 -> "UnknownTopic" [] c = 7 -> "TimedOut" [] c = 1 -> "OutOfRange" [] OTHER -> "Surfaced"
+
+\* the leader's first answer about the end of the log on a new connection: reader.initialize positions the connection
+\* (an unobserved loss of the previous connection may precede it)
+ListEv(e) ==
+  IF e.at # -1 \/ e.code # 0 \/ e.k # 1 \/ e.conn \in stale \/ e.conn \in conns \/ e.conn = cur THEN Skip
+  ELSE \/ Skip
+       \/ /\ phase \in {"init", "down", "idle"}
+          /\ Positioned(e.first, e.off)
+          /\ cur' = e.conn /\ UNCHANGED <<conns, stale, appOff>>
 
 FetchEv(e) ==
-  IF e.conn \in stale THEN Skip
+  \* (an answer is recorded when it is sent: one that is sent on a connection the reader has given up meanwhile is not read)
+  IF e.conn \in stale \/ (e.conn \in conns /\ e.conn # cur) THEN Skip
   ELSE
-    LET fresh == e.conn \notin conns
-        p == IF fresh THEN Resolve(cfg, rpos) ELSE pos IN
-    \* (a fetch on a new connection while the model is idle: the old connection was lost unobserved)
-    /\ IF fresh THEN phase \in {"init", "down", "idle"} /\ p <= Last(cfg) ELSE phase = "idle"
-    /\ e.off = p
-    /\ conns' = conns \cup {e.conn} /\ UNCHANGED <<stale, appOff>>
+    \* the connection the model positioned, asking for exactly the model's position
+    /\ e.conn = cur /\ phase = "idle" /\ e.off = pos
+    /\ conns' = conns \cup {e.conn} /\ UNCHANGED <<stale, appOff, cur>>
     /\ CASE e.kind \in {"data", "cut"} ->
-              /\ RespondAt(p, e.kind, e.nb, e.truncated, e.hdr, e.j) /\ pos' = p
-              /\ rpos' = IF fresh THEN p ELSE rpos
+              RespondAt(pos, e.kind, e.nb, e.truncated, e.hdr, e.j) /\ UNCHANGED <<pos, rpos>>
          [] e.kind = "shorthdr" ->
-              /\ pos' = p /\ rpos' = (IF fresh THEN p ELSE rpos) /\ phase' = "down"
-              /\ UNCHANGED <<cfg, pending, truncFrom, endPos, respKind, version, queue, app, got, starts, faults>>
-         [] e.kind = "empty" ->
-              /\ pos' = p /\ rpos' = (IF fresh THEN p ELSE rpos) /\ phase' = "idle"
-              /\ UNCHANGED <<cfg, pending, truncFrom, endPos, respKind, version, queue, app, got, starts, faults>>
-         [] e.kind = "err" ->
-              /\ IF fresh
-                   THEN \* Initialize, then the error answer
-                        /\ e.code \in {6, 7}
-                        /\ pos' = p /\ rpos' = p /\ phase' = (IF e.code = 6 THEN "down" ELSE "idle")
-                        /\ UNCHANGED <<cfg, pending, truncFrom, endPos, respKind, version, queue, app, got, starts, faults>>
-                   ELSE RespondError(CodeName(e.code))
+              /\ phase' = "down"
+              /\ UNCHANGED <<cfg, pos, rpos, pending, truncFrom, endPos, respKind, version, queue, app, got, starts, faults>>
+         [] e.kind = "empty" -> UNCHANGED vars
+         [] e.kind = "err" -> RespondError(CodeName(e.code))
 
 CloseEv(e) ==
-  IF e.conn \in stale \/ e.conn \notin conns THEN Skip
-  ELSE IF phase = "reading" THEN EndResponse /\ pos' = e.offset /\ Keep
+  IF e.conn \in stale \/ e.conn \notin conns \/ e.conn # cur THEN Skip
+  ELSE IF phase = "reading" THEN \/ EndResponse /\ pos' = e.offset /\ Keep
+                                 \/ e.timeout /\ TimeoutResponse /\ pos = e.offset /\ Keep
   \* Batch of an empty / error answer (after OffsetOutOfRange the reader seeks the Conn afterwards)
   ELSE phase \in {"idle", "down"} /\ (pos = e.offset \/ e.err # "") /\ Skip
 
+\* (taken at the beginning of the call: what the superseded reader does from then on is not the model's concern, and
+\* nothing of the new reader can be recorded before it)
 SetOffsetEv(e) ==
-  IF e.err # "" \/ e.o = appOff THEN Skip
-  ELSE SetOffset(e.o) /\ stale' = stale \cup conns /\ conns' = conns /\ appOff' = e.o
+  IF e.o = appOff THEN Skip
+  ELSE SetOffset(e.o) /\ stale' = stale \cup conns \cup {cur} /\ conns' = conns /\ appOff' = e.o /\ cur' = 0
 
 MsgEv(e) ==
   /\ AppReceive /\ Len(got') = Len(got) + 1 /\ got'[Len(got')].off = e.off
-  /\ appOff' = e.off + 1 /\ UNCHANGED <<conns, stale>>
+  /\ appOff' = e.off + 1 /\ UNCHANGED <<conns, stale, cur>>
 
 Step(e) ==
   CASE e.ev = "cfg" -> Reset(e)
     [] e.ev = "fetch" -> FetchEv(e)
+    [] e.ev = "listoffsets" -> ListEv(e)
     [] e.ev = "close" -> CloseEv(e)
-    [] e.ev = "setoffset.end" -> SetOffsetEv(e)
+    [] e.ev = "setoffset.begin" -> SetOffsetEv(e)
     [] e.ev = "call" -> (IF app.pc = "idle" THEN AppBegin ELSE UNCHANGED vars) /\ Keep
     [] e.ev = "msg" -> MsgEv(e)
-    [] e.ev \in {"nomsg", "eof", "fetcherr"} ->
+    [] e.ev \in {"nomsg", "eof", "fetcherr", "ctxerr"} ->
           /\ app' = [app EXCEPT !.pc = "idle"]
           /\ UNCHANGED <<cfg, pos, rpos, phase, pending, truncFrom, endPos, respKind, version, queue, got, starts, faults>> /\ Keep
     [] e.ev = "append" ->
@@ -96,9 +104,9 @@ Step(e) ==
 
 \* unlogged steps of the model
 Silent ==
-  /\ \/ DeliverOne \/ DropTruncated \/ CutNow
+  /\ \/ DeliverOne \/ DropTruncated \/ CutNow \/ AbandonResponse
      \/ (app.pc = "waiting" /\ queue # <<>> /\ Head(queue).ver < app.ver /\ AppReceive)
-  /\ UNCHANGED <<l, conns, stale, appOff>>
+  /\ UNCHANGED <<l, conns, stale, appOff, cur>>
 
 TNext == \/ (l <= Len(Trace) /\ l' = l + 1 /\ Step(Trace[l]))
          \/ (l <= Len(Trace) /\ Silent)
